@@ -373,7 +373,7 @@ def _apply(via, kspec, sigs):
     if "a" in sigs:
         tr.createAnalyticalFeature("a", list(sigs["a"]))
     if (n + len(names)) % 4 == 2:
-        tr, _how = gen.derive(tr, (coords, names))
+        tr, _how = gen.derive(tr, (coords, names), allow=gen.DERIVE_HOWS + ["hidden_slots", "hidden_slots"])
     # kernel argument as the API takes it + the weights the oracle uses
     if "weights" in kspec:
         karg = [v for v in kspec["weights"]]
